@@ -34,6 +34,22 @@ CLAIMED = {
              "26 signature/config templates, <= 5 positional and <= 2 keyword arguments.",
         design="3/C15",
         technique=TECH + "; hash pre-images kept structural, argument hashes as symbolic integer tokens"),
+    "C19": dict(
+        text="map_nested_value / iter_nested_value / iter_nested_value_children are run on every nested value whose node kinds "
+             "(12 container/leaf kinds incl. namedtuple, set, dict keys, dataclass with non-init field, frozen dataclass, list "
+             "subclass) are chosen by solver variables up to depth 2-3, and compared with a reference written from the statement: "
+             "same types and shape, every leaf replaced, leaves visited == leaves the iterator yields.",
+        note="Depth <= 2 (quick) / 3 (thorough), width 2; leaves are ints (set/dict-key leaves take one of two solver-chosen "
+             "values). The scheduler-level consequence is outside (C01).",
+        design="3/C19",
+        technique=TECH + "; value skeletons as lazily created solver choice variables, reference-model oracle"),
+    "C26": dict(
+        text="merge_dicts, get_context_value, Job.get_context on chains of real Job objects, Task.update_context and the root "
+             "merge of Scheduler.run are executed on contexts drawn by solver variables from a menu of 11 value shapes; the "
+             "oracle is the left fold of the documented two-way deep merge and a direct path lookup.",
+        note="<= 4 merged dicts, <= 3 jobs, <= 3 successive runs; expression-valued context entries are outside.",
+        design="3/C26",
+        technique=TECH + "; context shapes as solver choice variables; concrete blocks run natively on the real code"),
     "C34": dict(
         text="format_tag_value / parse_tag_value executed symbolically on symbolic strings (all strings up to a length over "
              "stated alphabets), ints, literals and depth-1 lists/dicts; round trip and type preservation asserted.",
@@ -48,6 +64,14 @@ CLAIMED = {
         note="get_config_dir and os.environ are fixed stubs; values <= 3 (quick) / 4 (thorough) characters over a 9-char alphabet.",
         design="3/C35",
         technique=TECH + "; symbolic option values through configparser's interpolation code"),
+    "C37": dict(
+        text="TaskRegistry.add/rename/get/task_hashes are run on every sequence of define / redefine-with-same-hash / rename / "
+             "wrap / get-by-hash operations (solver-chosen, hash tokens from a 3-value domain so definitions can share a hash) "
+             "with the count/name invariants asserted after every step; the real task and wraps_task decorators are run on "
+             "every sequence of plain / wrapped / double-wrapped redefinitions.",
+        note="<= 3-4 operations over two names; <= 3-4 redefinitions.",
+        design="3/C37",
+        technique=TECH + "; operation sequences as solver choice variables, invariant oracle"),
 }
 
 NOT_APPLICABLE = {
